@@ -146,6 +146,9 @@ OwnerFirst(full, newl) ==
 
 SetSame(nl, cplx) ==                  \* set_same(nl, cplx)
     /\ phase <= 2 /\ Tick
+    \* components that already are one variable (tied as whole complex numbers before) are not tied
+    \* again: set_same cannot tell such a non-owner from a fixed name (recorded as an observation)
+    /\ (~cplx /\ nl[1] \in CompNames) => cell[nl[1]] # cell[nl[2]]
     /\ LET sc == ScanSame(nl)
            sl == sc[1]
            tmp == sc[2]
@@ -182,15 +185,15 @@ FlagPartners(z, pol, flag) ==
        ELSE LET j == CHOOSE x \in hits : \A y \in hits : x <= y
             IN [w \in Cplx |-> IF w = z \/ w \in Range(same[j]) THEN flag ELSE pol[w]]
 
+\* a component of z is shared with other names (set_share_r, tie of a component)
+SharedComp(z) == \E j \in DOMAIN same : R(z) \in Range(same[j]) \/ I(z) \in Range(same[j])
 \* sequential application over a sequence of complex names
 RECURSIVE Xy2rpSeq(_, _, _)
 Xy2rpSeq(zs, st, pol) ==
     IF zs = <<>> THEN <<st, pol>>
     ELSE LET z == Head(zs)
-         IN IF pol[z] THEN Xy2rpSeq(Tail(zs), st, pol)
+         IN IF pol[z] \/ SharedComp(z) THEN Xy2rpSeq(Tail(zs), st, pol)
             ELSE Xy2rpSeq(Tail(zs), StoreXy2rp(z, st), FlagPartners(z, pol, TRUE))
-\* a component of z is shared with other names (set_share_r, tie of a component)
-SharedComp(z) == \E j \in DOMAIN same : R(z) \in Range(same[j]) \/ I(z) \in Range(same[j])
 RECURSIVE Rp2xySeq(_, _, _)
 Rp2xySeq(zs, st, pol) ==
     IF zs = <<>> THEN <<st, pol>>
@@ -200,6 +203,7 @@ Rp2xySeq(zs, st, pol) ==
 
 SetShareR(zs) ==                      \* set_share_r(zs): xy2rp_all(zs); set_same(r parts); flags True
     /\ phase <= 2 /\ Tick
+    /\ cell[R(zs[1])] # cell[R(zs[2])]              \* see SetSame: no redundant re-tie
     /\ \A z \in Range(zs) : OnAxis(z)
     /\ LET conv == Xy2rpSeq(zs, store, polar)
            nl == [i \in DOMAIN zs |-> R(zs[i])]
@@ -299,6 +303,12 @@ Xy2rpAll ==                           \* xy2rp_all()
     /\ LET c == Xy2rpSeq(CplxSeq, store, polar) IN store' = c[1] /\ polar' = c[2]
     /\ UNCHANGED <<cell, free, same, bnd, mask, initv>>
 
+\* complex parameters connected to the set S through tied radius / phase components
+RECURSIVE TiedGroup(_)
+TiedGroup(S) ==
+    LET more == {w \in Cplx : \E zz \in S, j \in DOMAIN same :
+                    ({R(zz), I(zz)} \cap Range(same[j]) # {}) /\ ({R(w), I(w)} \cap Range(same[j]) # {})}
+    IN IF more \subseteq S THEN S ELSE TiedGroup(S \cup more)
 \* std_polar(z): xy2rp; if r < 0: r := |r|, phase += pi; wrap phase into [-pi, pi)
 Wrap4(k) == ((k + 2) % 4) - 2
 StdPolarSeq(zs, st0, pol0) ==
@@ -308,18 +318,19 @@ StdPolarSeq(zs, st0, pol0) ==
             ELSE LET z == Head(s)
                      c == Xy2rpSeq(<<z>>, st, pol)
                      st1 == c[1]
+                     stays == ~c[2][z]            \* kept in xy form (shared component): untouched
                      r == st1[cell[R(z)]]
-                     \* a shared radius changes sign for all its owners: every distinct phase cell + pi
-                     hits == {j \in DOMAIN same : R(z) \in Range(same[j])}
-                     shared == IF hits = {} THEN {R(z)}
-                               ELSE Range(same[CHOOSE x \in hits : \A y \in hits : x <= y])
-                     pcells == {cell[I(HeadOf(n))] : n \in {m \in shared : m \in {R(w) : w \in Cplx}}}
+                     \* every parameter tied to z through a radius or a phase (transitively): all their
+                     \* radius cells change sign, all their phase cells get pi
+                     grp == TiedGroup({z})
+                     rcells == {cell[R(w)] : w \in grp}
+                     pcells == {cell[I(w)] : w \in grp}
                      st2 == IF r < 0
-                            THEN [cc \in Names |-> IF cc = cell[R(z)] THEN Abs(r)
+                            THEN [cc \in Names |-> IF cc \in rcells THEN -st1[cc]
                                                   ELSE IF cc \in pcells THEN st1[cc] + 2 ELSE st1[cc]]
                             ELSE st1
                      st3 == IF StdPolarWraps THEN [st2 EXCEPT ![cell[I(z)]] = Wrap4(st2[cell[I(z)]])] ELSE st2
-                 IN Go(Tail(s), st3, c[2])
+                 IN Go(Tail(s), IF stays THEN st1 ELSE st3, c[2])
     IN Go(zs, st0, pol0)
 StdPolar(z) ==                        \* std_polar(z)
     /\ Tick /\ Enter4 /\ NoCompMask
@@ -355,6 +366,8 @@ MaskExit ==                           \* leave the block
 --------------------------------------------------------------------------
 RealPairs == {<<x, y>> : x \in Reals, y \in Reals} \ {<<x, x>> : x \in Reals}
 CplxPairs == {<<x, y>> : x \in Cplx, y \in Cplx} \ {<<x, x>> : x \in Cplx}
+\* a tie of one component of two complex parameters (same component kind): set_same(["zi","wi"])
+CompPairs == {<<R(p[1]), R(p[2])>> : p \in CplxPairs} \cup {<<I(p[1]), I(p[2])>> : p \in CplxPairs}
 
 CoordAction ==
     \/ \E z \in Cplx : Rp2xy(z) \/ Xy2rp(z) \/ StdPolar(z)
@@ -363,7 +376,7 @@ CoordAction ==
 Next ==
     \/ \E n \in Names, v \in V : SetFix(n, v)
     \/ \E n \in Names : SetFixCurrent(n) \/ Unfix(n)
-    \/ \E p \in RealPairs : SetSame(p, FALSE)
+    \/ \E p \in RealPairs \cup CompPairs : SetSame(p, FALSE)
     \/ \E p \in CplxPairs : SetSame(p, TRUE) \/ SetShareR(p)
     \/ \E n \in Reals : SetBound(n)
     \/ RemoveBound
@@ -401,8 +414,8 @@ TiedCountOnce ==
 
 \* a tie of free parameters stays free (it must be counted, once)
 TieKeepsFree ==
-    \A p \in RealPairs :
-        (SetSame(p, FALSE) /\ ~IsFixed(p[1]) /\ ~IsFixed(p[2])) => (~IsFixed(p[1]) /\ ~IsFixed(p[2]))'
+    \A p \in RealPairs \cup CompPairs :
+        (SetSame(p, FALSE) /\ cell[p[1]] # cell[p[2]] /\ ~IsFixed(p[1]) /\ ~IsFixed(p[2])) => (~IsFixed(p[1]) /\ ~IsFixed(p[2]))'
 
 \* a fixed parameter changes only when explicitly assigned
 ExplicitlyAssigns(n) ==
@@ -424,8 +437,11 @@ ReadWriteIdentity ==
 ComplexPreserved == CoordAction => CVals' = CVals
 
 \* standardisation gives r >= 0 and -pi <= phi < pi
+\* (a Cartesian parameter one of whose components is tied to another parameter cannot be put
+\*  into polar form without breaking the tie; it is left as it is)
 StandardForm ==
-    \A z \in Cplx : StdPolar(z) => (polar[z]' /\ Val(R(z))' >= 0 /\ Val(I(z))' \in -2..1)
+    \A z \in Cplx : (StdPolar(z) /\ (polar[z] \/ ~SharedComp(z))) =>
+                        (polar[z]' /\ Val(R(z))' >= 0 /\ Val(I(z))' \in -2..1)
 
 \* the bound transformation and its inverse are mutually inverse on the allowed range
 BoundInverse == \A y \in Lo..Hi : X2Y(Y2X(y)) = y
